@@ -21,7 +21,10 @@ Flat(ms) == IF ms = <<>> THEN <<>> ELSE Head(ms) \o Flat(Tail(ms))
 SentPkgs(s) == LET ms == Msgs(s, 1, <<>>)
                    n == IF flow = "plain" THEN 1 ELSE 2       \* the client sends one (two) messages, the peer answers each
                IN Flat(SubSeq(ms, 1, IF Len(ms) < n THEN Len(ms) ELSE n))
-C08_SuccessOnlyIfAccepted == V = "S" => Core(SentPkgs(script)) = Core(Valid(flow))
+NormCaps(s) == [i \in 1..Len(s) |-> IF s[i] = P("caps", "subset") THEN P("caps", "normal") ELSE s[i]]
+C08_SuccessOnlyIfAccepted == V = "S" => NormCaps(Core(SentPkgs(script))) = Core(Valid(flow))
+C08_ZeroCapsNeverSucceed == (\E i \in 1..Len(SentPkgs(script)) : SentPkgs(script)[i] = P("caps", "zero")
+                              /\ \A j \in 1..Len(SentPkgs(script)) : SentPkgs(script)[j].t = "caps" => j = i) => V # "S"
 \* a failure acknowledgement anywhere the login routine looks for one is never a success
 C08_FailAckNeverSucceeds == (\E i \in 1..Len(SentPkgs(script)) : SentPkgs(script)[i] = P("ack", "fail")) => V # "S"
 C08_UnusableKeyFails == (flow = "enc" /\ \E i \in 1..Len(script) : script[i].t = "params" /\ script[i].a # "good"
